@@ -312,6 +312,9 @@ func (sc scenario) describe() string {
 }
 
 type H struct {
+	watchdog       string // set when a controlled run made no progress (see lockstep)
+	aoRaceHits       int // lock-step runs in which an external System.ActorOf lost the race against the root's OnKill
+	report         string
 	o              *lib.Out
 	raceHit        int
 	abortB         bool
@@ -643,6 +646,50 @@ func (h *H) runScenario(sc scenario) {
 			}
 		}
 	}
+	// after ANY effective stop has returned - nil or stop-failed (the timeout arm), from Stop or from Start's failure
+	// path - the system context is cancelled and the context-guard goroutine created by Start ends (it wakes up on
+	// ctx.Done(), runs stop(false), gets already-stopped). Checked on blocking / slow trees as well: s.cancel() must not
+	// depend on the tree terminating in time.
+	effReturned := -1
+	for i, r := range res {
+		c := sc.calls[i]
+		if r.done && (c.kind == kStop && (r.code == 0 || r.code == 4) || c.kind == kStart && (r.code == 10 || r.code == 14)) {
+			effReturned = i
+		}
+	}
+	if !hung && allDone && effReturned < 0 && !cancelled && started {
+		// a Start got through, nobody cancelled the context and no Stop got through: the system runs
+		time.Sleep(200 * time.Microsecond)
+		if actor.XVSysCtxDone(sys) || actor.XVSysStatus(sys) != 1 {
+			h.o.Monitor("c07-stopped-without-stop-or-cancel", in, fmt.Sprintf("%s: codes %v - a Start returned nil, no call cancelled the context and no Stop got through, but context cancelled=%v, status=%d (1 = started): the system was stopped / its context cancelled by a call that reported it had done nothing (e.g. a Stop before Start)",
+				sc.describe(), names(obs), actor.XVSysCtxDone(sys), actor.XVSysStatus(sys)))
+		}
+	}
+	if !hung && allDone && effReturned >= 0 && actor.XVSysHasCtx(sys) {
+		h.o.Stats["rt-checked-cancel-after-stop"]++
+		if !actor.XVSysCtxDone(sys) {
+			h.o.Monitor("c07-stop-returned-context-not-cancelled", in, fmt.Sprintf("%s: call #%d returned %s (codes %v) but the system context is NOT cancelled: nothing will ever cancel it (every later Stop answers already-stopped), the context-guard goroutine stays blocked on <-ctx.Done() for ever",
+				sc.describe(), effReturned, codeName(res[effReturned].code), names(obs)))
+		}
+		var guards []string
+		for dl := time.Now().Add(2 * time.Second); ; {
+			guards = guards[:0]
+			for id, blk := range allStacks() {
+				if _, old := base[id]; !old && strings.Contains(blk, "internal/actor.(*System).Start.func") {
+					guards = append(guards, blk)
+				}
+			}
+			if len(guards) == 0 || time.Now().After(dl) {
+				break
+			}
+			time.Sleep(2 * time.Millisecond)
+		}
+		if len(guards) > 0 {
+			sort.Strings(guards)
+			h.o.Monitor("c07-guard-goroutine-outlives-stop", in, fmt.Sprintf("%s: call #%d returned %s (codes %v) but %d context-guard goroutine(s) of this system still exist 2 s later (context cancelled=%v):\n%s",
+				sc.describe(), effReturned, codeName(res[effReturned].code), names(obs), len(guards), actor.XVSysCtxDone(sys), strings.Join(guards, "\n\n")))
+		}
+	}
 	// ---- cleanup ----
 	if busy != nil {
 		busy.Close()
@@ -771,7 +818,7 @@ func orderings(ns, nt, nc int) [][]int {
 	return out
 }
 
-func (h *H) tierA(r *lib.Rand, thorough bool) {
+func (h *H) tierA(r *lib.Rand, thorough bool, reduced bool) {
 	mk := func(kinds []int, variant int) []rcall {
 		out := make([]rcall, len(kinds))
 		nstop := 0
@@ -796,6 +843,9 @@ func (h *H) tierA(r *lib.Rand, thorough bool) {
 	nm := 400
 	if thorough {
 		nm = 6000
+	}
+	if reduced {
+		nm = 40
 	}
 	mshapes := [][]rcall{
 		{{kind: kStart}, {kind: kStop, hasTmo: true, tmo: time.Second}},
@@ -822,6 +872,9 @@ func (h *H) tierA(r *lib.Rand, thorough bool) {
 				for oi, o := range ords {
 					if !thorough && len(o) >= 5 && oi%4 != int(r.Intn(4)) {
 						continue // quick: a quarter of the longest sequences
+					}
+					if reduced && len(o) >= 4 {
+						continue
 					}
 					depth := []int{0, 1, 2, 3}[(oi+ns+nt)%4]
 					if !thorough && depth == 3 {
@@ -872,6 +925,9 @@ func (h *H) tierA(r *lib.Rand, thorough bool) {
 	if thorough {
 		reps = 120
 	}
+	if reduced {
+		reps = 4
+	}
 	for _, o := range conc {
 		for rep := 0; rep < reps; rep++ {
 			gm := []int{1, 2, 4, 8}[rep%4]
@@ -886,10 +942,90 @@ func (h *H) tierA(r *lib.Rand, thorough bool) {
 	if thorough {
 		n = 40000
 	}
+	if reduced {
+		n = 200
+	}
 	for i := 0; i < n && h.raceHit < 3; i++ {
 		h.runScenario(scenario{calls: []rcall{{kind: kStart}, {kind: kStop, hasTmo: true, tmo: time.Second}}, prefix: 0, gomax: []int{2, 4, 8, 16}[i%4]})
 	}
 	h.o.Info["rt_race_attempts"] = n
+	// (6) System.ActorOf racing Stop
+	na := 150
+	if thorough {
+		na = 2000
+	}
+	if reduced {
+		na = 30
+	}
+	h.actorOfRace(na)
+}
+
+// actorOfRace: real systems, no scheduler: Start, then Stop(400 ms) against a goroutine that calls System.ActorOf in a loop
+// until it fails. Every actor that System.ActorOf returned must receive its own OnKilled, and Stop must return nil (nothing
+// in the tree blocks). Finding C07-actorof-races-stop: Context.ActorOf decides from a stale read of the root's state.
+func (h *H) actorOfRace(n int) {
+	hits := 0
+	for i := 0; i < n && hits < 3 && !h.abortA; i++ {
+		sys := actor.NewSystem(vivid.WithActorSystemLogger(log.NewSilentLogger()), vivid.WithActorSystemStopTimeout(400*time.Millisecond))
+		if err := sys.Start(); err != nil {
+			continue
+		}
+		var flags []*atomic.Bool
+		var wg sync.WaitGroup
+		var gate atomic.Bool
+		wg.Add(1)
+		go func() {
+			defer wg.Done()
+			for !gate.Load() {
+			}
+			for k := 0; k < 3000; k++ {
+				f := new(atomic.Bool)
+				if _, err := sys.ActorOf(extActor{killed: f}); err != nil {
+					break
+				}
+				flags = append(flags, f)
+			}
+		}()
+		runtime.Gosched()
+		gate.Store(true)
+		t0 := time.Now()
+		c := code(sys.Stop())
+		d := time.Since(t0)
+		wg.Wait()
+		alive := func() int {
+			k := 0
+			for _, f := range flags {
+				if !f.Load() {
+					k++
+				}
+			}
+			return k
+		}
+		for dl := time.Now().Add(1500 * time.Millisecond); alive() > 0 && time.Now().Before(dl); {
+			time.Sleep(time.Millisecond)
+		}
+		h.o.Stats["rt-actorof-race"]++
+		in := lib.L(lib.N(2), lib.L(lib.N(2), lib.Bool(false), lib.Bool(false)), lib.LS([]lib.T{lib.L(lib.N(0)), lib.L(lib.N(1), lib.Bool(false))}), lib.LS([]lib.T{lib.N(0), lib.NI(c)}))
+		if a := alive(); a > 0 {
+			hits++
+			closed := false
+			select {
+			case <-actor.XVSysGuardClosed(sys):
+				closed = true
+			default:
+			}
+			if !closed {
+				h.o.Monitor("c07-actorof-races-stop:root-never-terminates", in, fmt.Sprintf("Start; then Stop(400ms) || a goroutine calling System.ActorOf until it fails (%d calls returned a reference): Stop returned %s after %v, %d of the spawned actors never received their own OnKilled (1.5 s later) and guardClosedSignal is still open: the root waits for ever for a child that Context.ActorOf registered after the root had collected its children (stale read of the root's state)",
+					len(flags), codeName(c), d, a))
+			} else {
+				h.o.Monitor("c07-actorof-races-stop:actor-survives-stop", in, fmt.Sprintf("Start; then Stop(400ms) || a goroutine calling System.ActorOf until it fails (%d calls returned a reference): Stop returned %s after %v and the root has terminated, but %d of the spawned actors never received their own OnKilled (1.5 s later): alive under a dead root for ever",
+					len(flags), codeName(c), d, a))
+			}
+		} else if c != 0 {
+			h.o.Monitor("stop-failed-without-cause", in, fmt.Sprintf("Start; then Stop(400ms) || System.ActorOf loop (%d actors, all terminated): Stop returned %s after %v", len(flags), codeName(c), d))
+		}
+		_ = sys.Stop(50 * time.Millisecond)
+	}
 }
 
 // ---------------------------------------------------------------------------------------------------
@@ -900,42 +1036,55 @@ type tcall struct {
 	d    int // Stop: < 0 no argument, otherwise ticks
 }
 
-func labelCode(l string) uint64 {
-	switch {
-	case l == "start":
+// labelCode: the scheduling points of the instrumented system.go / system_chains.go are labelled by WHAT they do
+// ("<kind>:<role>", instrumenter profile "system"), not by the function they stand in, so that a refactoring (helpers,
+// closures, renamed fields) leaves the labels alone. firstStatusLock: the thread is a Start() caller standing in front of
+// its FIRST statusLock.Lock() (Start's own critical section; a later one is the s.Stop of Start's failure path).
+func labelCode(l string, firstStatusLock bool) uint64 {
+	switch l {
+	case "start":
 		return 1
-	case l == "Start:Lock:s.statusLock":
-		return 2
-	case l == "stop:Lock:s.statusLock":
+	case "Lock:status":
+		if firstStatusLock {
+			return 2
+		}
 		return 20
-	case strings.HasPrefix(l, "spawnGuardActor:stmt:system.Context, err = NewContext("):
+	case "stmt:NewContext":
 		return 3
-	case strings.HasPrefix(l, "initializeMetrics:stmt:"):
+	case "stmt:if-Metrics":
 		return 4
-	case l == "ActorOf:Lock:s.actorOfLock":
-		// System.ActorOf called by the start-up chain (metrics enabled) on the Start thread, which holds statusLock:
-		// in the micro-step model this is still the chain step (see lockstep: the step in front of it is not reported)
-		return 4
-	case l == "stop:stmt:if s.clusterContext != nil {":
+	case "stmt:if-clusterContext":
 		return 5
-	case l == "stop:s.clusterContext.Leave":
+	case "call:Leave":
 		return 6
-	case l == "stop:stmt:if s.Context != nil {":
+	case "stmt:if-Context":
 		return 7
-	case l == "stop:s.Context.Kill":
+	case "call:Kill":
 		return 8
-	case l == "stop:s.cancel":
+	case "call:cancel":
 		return 9
-	case l == "stop:select:s.guardClosedSignal":
+	case "select:guardClosed":
 		return 10
-	case l == "stop:s.scheduler.Stop":
+	case "call:scheduler.Stop":
 		return 11
-	case l == "Start:recv:s.options.Context.Done()":
+	case "recv:ctxDone":
 		return 12
-	case l == "cancel":
+	case "cancel":
 		return 13
 	}
 	return 97
+}
+
+// labelCode2: the label codes of the merged machine (System/LifeLock.v, replay kind 4): every actorOfLock.Lock() is a
+// scheduling point of its own (15), the gate of an external System.ActorOf caller is 16
+func labelCode2(l string, firstStatusLock bool) uint64 {
+	switch l {
+	case "Lock:actorOf":
+		return 15
+	case "actorof-gate":
+		return 16
+	}
+	return labelCode(l, firstStatusLock)
 }
 
 type snap struct {
@@ -944,21 +1093,55 @@ type snap struct {
 	ctxDone    bool
 	spawned    int
 	lastSelect int
+	holdStatus int // real thread id of the holder of statusLock / actorOfLock after the step, -1 = free
+	holdActor  int
+	hasCluster bool // s.clusterContext != nil
 }
 
-// lockstep runs one schedule. metrics: the system is created WITH metrics, so that the start-up chain calls
-// System.ActorOf("@metrics") - and takes actorOfLock - while Start holds statusLock (no TCP port is needed). The
-// model's chain step is then the step that STARTS at the acquisition of actorOfLock; the scheduling point in front
-// of it (`if system.options.Metrics != nil`, which only assigns system.metrics) is not reported to the model.
-func (h *H) lockstep(calls []tcall, metrics bool, choose func([]int, int) int) []vsched.Choice {
+// lsCfg: the system a controlled run is made on
+type lsCfg struct {
+	metrics  bool // EnableMetrics: the start-up chain calls System.ActorOf("@metrics") under statusLock
+	rootFail bool // advertise address without port: NewContext of the root fails, Start runs its failure path (s.Stop)
+	remoting bool // remoting on loopback: System.ActorOf("@remoting") in the chain
+	cluster  bool // single-node cluster on loopback: "@cluster" + proxy manager in the chain; stop() calls Leave()
+	ext      int  // external goroutines calling System.ActorOf once a Start has returned nil
+}
+
+func (c lsCfg) String() string {
+	return fmt.Sprintf("metrics=%v rootFail=%v remoting=%v cluster=%v extActorOf=%d", c.metrics, c.rootFail, c.remoting, c.cluster, c.ext)
+}
+
+// extActor: what an external System.ActorOf caller spawns; killed is set when the actor has received its own OnKilled
+type extActor struct{ killed *atomic.Bool }
+
+func (a extActor) OnReceive(ctx vivid.ActorContext) {
+	if m, ok := ctx.Message().(*vivid.OnKilled); ok && m.Ref.Equals(ctx.Ref()) {
+		a.killed.Store(true)
+	}
+}
+
+// lockstep runs one schedule on a system configured by cfg. The trace is replayed on the MERGED machine
+// System/LifeLock.v (kind 4): every scheduling point of the real code is a step of the model, the ones inside the start-up
+// chain (`if system.options.Metrics != nil`, every actorOfLock.Lock() of System.ActorOf) and inside Leave() included; after
+// every step the holders of statusLock and actorOfLock are compared too.
+func (h *H) lockstep(calls []tcall, cfg lsCfg, choose func([]int, int) int) []vsched.Choice {
 	parent, cancelParent := context.WithCancel(context.Background())
 	opts := []vivid.ActorSystemOption{
 		vivid.WithActorSystemContext(parent),
 		vivid.WithActorSystemLogger(log.NewSilentLogger()),
 		vivid.WithActorSystemStopTimeout(2 * time.Second),
 	}
-	if metrics {
+	if cfg.metrics {
 		opts = append(opts, vivid.WithActorSystemEnableMetrics(true))
+	}
+	switch {
+	case cfg.rootFail:
+		opts = append(opts, vivid.WithActorSystemRemoting("127.0.0.1")) // no port: the root reference cannot be built
+	case cfg.cluster:
+		opts = append(opts, vivid.WithActorSystemRemoting(freeAddr()),
+			vivid.WithActorSystemRemotingOptions(vivid.NewActorSystemRemotingOptions(), vivid.WithActorSystemRemotingClusterOption()))
+	case cfg.remoting:
+		opts = append(opts, vivid.WithActorSystemRemoting(freeAddr()))
 	}
 	sys := actor.NewSystem(opts...)
 	s := vsched.New(choose)
@@ -968,12 +1151,23 @@ func (h *H) lockstep(calls []tcall, metrics bool, choose func([]int, int) int) [
 	for i := range results {
 		results[i] = -1
 	}
+	started := false // some Start has returned nil: external System.ActorOf callers may go
+	startsLeft := 0  // Start calls that have not returned yet
+	for _, c := range calls {
+		if c.kind == kStart {
+			startsLeft++
+		}
+	}
 	for i, c := range calls {
 		i, c := i, c
 		s.Spawn("env", func() {
 			switch c.kind {
 			case kStart:
 				results[i] = code(sys.Start())
+				if results[i] == 0 {
+					started = true
+				}
+				startsLeft--
 			case kStop:
 				if c.d < 0 {
 					results[i] = code(sys.Stop())
@@ -987,6 +1181,35 @@ func (h *H) lockstep(calls []tcall, metrics bool, choose func([]int, int) int) [
 			}
 		})
 	}
+	extOK := make([]bool, cfg.ext) // System.ActorOf returned a reference
+	extKilled := make([]*atomic.Bool, cfg.ext)
+	extSkipped := make([]bool, cfg.ext)
+	for j := 0; j < cfg.ext; j++ {
+		j := j
+		extKilled[j] = new(atomic.Bool)
+		s.Spawn("ext", func() {
+			vsched.YieldIf("actorof-gate", func() bool { return started || startsLeft == 0 })
+			if !started {
+				// no Start got through (impossible on a system whose start-up chain succeeds): System.ActorOf must not be
+				// called on a system without a root; the caller gives up (the replay will show the difference)
+				extSkipped[j] = true
+				return
+			}
+			_, err := sys.ActorOf(extActor{killed: extKilled[j]})
+			extOK[j] = err == nil
+		})
+	}
+	// how long the environment step "the tree has terminated" waits for the real root: an idle tree terminates within
+	// microseconds. With external System.ActorOf callers the root may NEVER terminate (finding C07-actorof-races-stop):
+	// once that has been established three times with generous waits, further occurrences are only classified (short waits)
+	generous := h.aoRaceHits < 3
+	treeWait, confirmWait := 5*time.Second, 1500*time.Millisecond
+	if cfg.ext > 0 {
+		treeWait = 600 * time.Millisecond
+		if !generous {
+			treeWait, confirmWait = 150*time.Millisecond, 250*time.Millisecond
+		}
+	}
 	killIssued, treeDone, treeTimeout, abandoned := false, false, false, false
 	s.ClosedGate = func(ch <-chan struct{}) bool { return treeDone }
 	daemon := s.SpawnDaemon("treedone", func() {
@@ -996,7 +1219,7 @@ func (h *H) lockstep(calls []tcall, metrics bool, choose func([]int, int) int) [
 		}
 		select {
 		case <-actor.XVSysGuardClosed(sys):
-		case <-time.After(5 * time.Second):
+		case <-time.After(treeWait):
 			treeTimeout = true
 		}
 		treeDone = !treeTimeout // never pretend the channel is closed: the select would block for real
@@ -1004,8 +1227,10 @@ func (h *H) lockstep(calls []tcall, metrics bool, choose func([]int, int) int) [
 	known := s.NumThreads()
 	guardTid := -1
 	spawned := 0
+	lockIdx := 0
+	holder := map[string]int{}
 	s.SnapshotStep = func(real int, label string, obj any) any {
-		if label == "stop:s.Context.Kill" {
+		if label == "call:Kill" {
 			killIssued = true
 		}
 		for id := known; id < s.NumThreads(); id++ {
@@ -1015,48 +1240,170 @@ func (h *H) lockstep(calls []tcall, metrics bool, choose func([]int, int) int) [
 			}
 		}
 		known = s.NumThreads()
-		return snap{status: actor.XVSysStatus(sys), hasCtx: actor.XVSysHasCtx(sys), ctxDone: actor.XVSysCtxDone(sys), spawned: spawned, lastSelect: s.LastSelect}
+		for ; lockIdx < len(s.LockOps); lockIdx++ {
+			if op := s.LockOps[lockIdx]; op.Acquire {
+				holder[op.Name] = op.Tid
+			} else {
+				delete(holder, op.Name)
+			}
+		}
+		hs, ha := -1, -1
+		if t, ok := holder["status"]; ok {
+			hs = t
+		}
+		if t, ok := holder["actorOf"]; ok {
+			ha = t
+		}
+		return snap{status: actor.XVSysStatus(sys), hasCtx: actor.XVSysHasCtx(sys), ctxDone: actor.XVSysCtxDone(sys), spawned: spawned, lastSelect: s.LastSelect,
+			holdStatus: hs, holdActor: ha, hasCluster: actor.XVSysHasCluster(sys)}
 	}
-	s.Run()
+	// watchdog: under the controlled scheduler a step takes microseconds (the environment steps wait for the real actor
+	// runtime: at most 5 s). A run that does not come back means that the thread which was resumed neither parked at its
+	// next scheduling point nor finished - it is blocked for real on something the instrumented code does not control (a
+	// goroutine / timer / callback created outside the instrumented operations, e.g. context.AfterFunc). That is not a
+	// failing input of the property but a broken tie: say so and stop at once instead of running into the time limit.
+	runDone := make(chan struct{})
+	go func() { s.Run(); close(runDone) }()
+	select {
+	case <-runDone:
+	case <-time.After(25 * time.Second):
+		var inSys []string
+		for _, blk := range allStacks() {
+			if strings.Contains(blk, "internal/actor.(*System)") {
+				inSys = append(inSys, blk)
+			}
+		}
+		sort.Strings(inSys)
+		msg := fmt.Sprintf("syslife: HARNESS-DID-NOT-COMPLETE: the controlled scheduler made no progress for 25 s in a lock-step run of calls %v (%v). Threads: %s. "+
+			"The resumed thread neither reached its next scheduling point nor finished: an operation of Start/Stop that the instrumentation does not control "+
+			"(a goroutine, timer or callback created outside the instrumented `go` / lock / channel / select operations of system.go, e.g. context.AfterFunc) is involved. "+
+			"The model/implementation correspondence cannot be established on this tree.\ngoroutines inside System methods:\n%s",
+			describeCalls(calls), cfg, s.Stuck(), strings.Join(inSys, "\n\n"))
+		// no further controlled run is possible in this process (goroutines of this one are blocked for real); the real-time
+		// tier still runs - if the change is a genuine defect (a call that hangs) it produces the failing input - and the
+		// process ends with exit code 5 (harness did not complete) unless a monitor fired
+		h.watchdog = msg
+		h.o.Info["ls_watchdog"] = msg
+		h.abortB = true
+		vsched.Uninstall()
+		cancelParent()
+		return nil
+	}
 
+
+	// outcome of the external callers' Context.ActorOf (finding C07-actorof-races-stop): a spawned actor that is never
+	// killed although Kill(root) was issued - the root still waits for it (alt 1) or has terminated without it (alt 2)
+	rootDown := func(d time.Duration) bool {
+		select {
+		case <-actor.XVSysGuardClosed(sys):
+			return true
+		case <-time.After(d):
+			return false
+		}
+	}
+	extAlt := make([]int, cfg.ext)
+	rootStuck := false
+	if killIssued {
+		down := rootDown(0)
+		if !down && treeTimeout {
+			down = rootDown(confirmWait)
+			rootStuck = !down
+		}
+		for j := 0; j < cfg.ext; j++ {
+			if !extOK[j] {
+				continue
+			}
+			if down || rootStuck {
+				for dl := time.Now().Add(confirmWait / 3); !extKilled[j].Load() && time.Now().Before(dl); {
+					time.Sleep(200 * time.Microsecond)
+				}
+			}
+			if extKilled[j].Load() {
+				continue
+			}
+			if rootStuck {
+				extAlt[j] = 1
+			} else if down {
+				extAlt[j] = 2
+			}
+		}
+	}
+	isExt := func(real int) bool { return real >= n && real < n+cfg.ext }
 	mid := func(real int) int {
 		if real == guardTid {
 			return n
 		}
 		return real
 	}
+	ownerCode := func(real int) uint64 {
+		switch {
+		case real < 0:
+			return 0
+		case isExt(real):
+			return uint64(1001 + real - n)
+		}
+		return uint64(1 + mid(real))
+	}
 	var evs, outs []lib.T
 	unknown := ""
+	prevLabel := map[int]string{}
+	statusLocks := map[int]int{} // per thread: statusLock.Lock() steps taken so far
+	firstLock := func(real int) bool { return real < n && calls[real].kind == kStart && statusLocks[real] == 0 }
 	for _, st := range s.Trace {
 		sn := st.Snap.(snap)
-		var lab uint64
+		out := func(lab uint64) {
+			outs = append(outs, lib.L(lib.N(lab), lib.N(uint64(sn.status)), lib.Bool(sn.hasCtx), lib.Bool(sn.ctxDone), lib.NI(sn.spawned),
+				lib.N(ownerCode(sn.holdStatus)), lib.N(ownerCode(sn.holdActor)), lib.Bool(sn.hasCluster)))
+		}
 		if st.Real == daemon {
-			if st.Label != "treedone" {
-				continue
+			if st.Label != "treedone" || treeTimeout {
+				continue // (treeTimeout: the real root did not terminate while the environment step waited: no event)
 			}
 			evs = append(evs, lib.L(lib.N(3)))
-			lab = 91
+			out(91)
 		} else if owner, isTimer := s.TimerOwner[st.Real]; isTimer {
 			if !strings.HasPrefix(st.Label, "timer:") {
 				continue
 			}
 			evs = append(evs, lib.L(lib.N(2), lib.NI(mid(owner))))
-			lab = 90
+			out(90)
+		} else if isExt(st.Real) {
+			if st.Label == "start" {
+				continue // runs to the gate: not a step of the model
+			}
+			alt := 0
+			if st.Label == "Lock:actorOf" {
+				alt = extAlt[st.Real-n]
+			}
+			evs = append(evs, lib.L(lib.N(1), lib.NI(st.Real-n), lib.NI(alt)))
+			out(labelCode2(st.Label, false))
 		} else {
-			lab = labelCode(st.Label)
+			lab := labelCode2(st.Label, firstLock(st.Real))
+			if st.Label == "Lock:status" {
+				statusLocks[st.Real]++
+			}
 			if lab == 97 {
 				unknown = st.Label
-			}
-			if metrics && strings.HasPrefix(st.Label, "initializeMetrics:stmt:") {
-				continue // see the comment of lockstep
 			}
 			alt := 0
 			if lab == 10 {
 				alt = sn.lastSelect
 			}
+			if lab == 3 && !sn.hasCtx {
+				alt = 1 // NewContext of the root failed
+			}
 			evs = append(evs, lib.L(lib.N(0), lib.NI(mid(st.Real)), lib.NI(alt)))
+			out(lab)
+			if lab == 15 && prevLabel[st.Real] == "call:Leave" {
+				// System.ActorOf inside Leave(): the same real step went on through leaveLock.Unlock() and the blocking
+				// `<-c.leaveWait` (cluster/context.go is not instrumented) up to the next scheduling point of stop, so the
+				// leave HAS completed: the environment event and the model's step out of the wait belong to this real step
+				evs = append(evs, lib.L(lib.N(4)), lib.L(lib.N(0), lib.NI(mid(st.Real)), lib.NI(0)))
+				out(92)
+				out(14)
+			}
+			prevLabel[st.Real] = st.Label
 		}
-		outs = append(outs, lib.L(lib.N(lab), lib.N(uint64(sn.status)), lib.Bool(sn.hasCtx), lib.Bool(sn.ctxDone), lib.NI(sn.spawned)))
 	}
 	// final per-thread results and verdict
 	var fin []lib.T
@@ -1087,11 +1434,25 @@ func (h *H) lockstep(calls []tcall, metrics bool, choose func([]int, int) int) [
 			continue
 		}
 		allDone = false
-		fin = append(fin, lib.L(lib.N(1), lib.N(labelCode(label))))
-		if !(k == n && labelCode(label) == 12 && !actor.XVSysCtxDone(sys)) {
+		fin = append(fin, lib.L(lib.N(1), lib.N(labelCode2(label, firstLock(id)))))
+		if !(k == n && label == "recv:ctxDone" && !actor.XVSysCtxDone(sys)) {
 			onlyGuard = false
 			stuck = append(stuck, fmt.Sprintf("thread %d at %q", id, label))
 		}
+	}
+	for j := 0; j < cfg.ext; j++ {
+		label, done := s.ThreadLabel(n + j)
+		if done && extSkipped[j] {
+			fin = append(fin, lib.L(lib.N(1), lib.N(16))) // never called System.ActorOf
+			continue
+		}
+		if done {
+			fin = append(fin, lib.L(lib.N(0), lib.N(4), lib.N(0)))
+			continue
+		}
+		allDone, onlyGuard = false, false
+		fin = append(fin, lib.L(lib.N(1), lib.N(labelCode2(label, false))))
+		stuck = append(stuck, fmt.Sprintf("external System.ActorOf caller (thread %d) at %q", n+j, label))
 	}
 	verdict := 2
 	if allDone {
@@ -1114,7 +1475,8 @@ func (h *H) lockstep(calls []tcall, metrics bool, choose func([]int, int) int) [
 			threads[i] = lib.L(lib.N(2))
 		}
 	}
-	in := lib.L(lib.N(1), lib.L(lib.N(0), lib.N(5)), lib.LS(threads), lib.LS(evs))
+	in := lib.L(lib.N(4), lib.L(lib.Bool(cfg.cluster), lib.N(5), lib.Bool(cfg.metrics), lib.Bool(cfg.remoting || cfg.cluster || cfg.rootFail), lib.N(0)),
+		lib.LS(threads), lib.NI(cfg.ext), lib.LS(evs))
 	out := lib.L(lib.LS(outs), lib.LS(fin), lib.NI(verdict))
 	pre := 0
 	for i := 1; i < len(s.Trace); i++ {
@@ -1125,6 +1487,20 @@ func (h *H) lockstep(calls []tcall, metrics bool, choose func([]int, int) int) [
 	h.o.Case(fmt.Sprintf("ls-calls=%d", n), pre >= 2, in, out)
 	h.o.Stats["ls-steps"] += len(s.Trace)
 	h.o.Stats[fmt.Sprintf("ls-verdict=%d", verdict)]++
+	switch {
+	case cfg.rootFail:
+		h.o.Stats["ls-root-fails"]++
+	case cfg.cluster:
+		h.o.Stats["ls-cluster"]++
+	case cfg.remoting:
+		h.o.Stats["ls-remoting"]++
+	}
+	if cfg.metrics {
+		h.o.Stats["ls-metrics"]++
+	}
+	if cfg.ext > 0 {
+		h.o.Stats["ls-ext-actorof"]++
+	}
 	if unknown != "" {
 		h.o.Stats["ls-unknown-label:"+unknown]++
 	}
@@ -1142,15 +1518,36 @@ func (h *H) lockstep(calls []tcall, metrics bool, choose func([]int, int) int) [
 		}
 		if cycle && s.Deadlock {
 			// every thread is parked in front of a lock whose holder is parked in front of a lock: a lock-order cycle
-			h.o.Monitor("c07-start-stop-deadlock", in, fmt.Sprintf("controlled schedule of calls %v (metrics=%v): LOCK-ORDER DEADLOCK, no thread can ever run again: %s | schedule (thread:label): %s",
-				describeCalls(calls), metrics, strings.Join(waits, "; "), scheduleText(s)))
+			h.o.Monitor("c07-start-stop-deadlock", in, fmt.Sprintf("controlled schedule of calls %v (%v): LOCK-ORDER DEADLOCK, no thread can ever run again: %s | schedule (thread:label): %s",
+				describeCalls(calls), cfg, strings.Join(waits, "; "), scheduleText(s)))
 		}
-		h.o.Monitor(what, in, fmt.Sprintf("calls %v (metrics=%v): unfinished threads that wait neither for a context cancel nor for the environment: %s | all: %s%s", describeCalls(calls), metrics, strings.Join(stuck, ", "), s.Stuck(), lockPart))
+		h.o.Monitor(what, in, fmt.Sprintf("calls %v (%v): unfinished threads that wait neither for a context cancel nor for the environment: %s | all: %s%s", describeCalls(calls), cfg, strings.Join(stuck, ", "), s.Stuck(), lockPart))
 	}
-	h.lockOrderCase(calls, n, guardTid, s)
-	if treeTimeout {
+	h.lockOrderCase(calls, n, cfg.ext, guardTid, s)
+	raced := false
+	for j, a := range extAlt {
+		if a == 0 {
+			continue
+		}
+		raced = true
+		h.o.Stats[fmt.Sprintf("ls-actorof-race-outcome=%d", a)]++
+		if !generous {
+			continue
+		}
+		if a == 1 {
+			h.o.Monitor("c07-actorof-races-stop:root-never-terminates", in, fmt.Sprintf("calls %v (%v) returned %v: external System.ActorOf caller #%d spawned an actor after Kill(root) had been issued; that actor never received OnKilled and the root never terminated (guardClosedSignal still open %v after the kill, nothing else alive in the tree): Context.ActorOf used the root's state it had read BEFORE the root handled OnKill, so nobody kills the new child and the root waits for it for ever - Stop can only run into its timeout | schedule: %s",
+				describeCalls(calls), cfg, names(results), j, treeWait+confirmWait, scheduleText(s)))
+		} else {
+			h.o.Monitor("c07-actorof-races-stop:actor-survives-stop", in, fmt.Sprintf("calls %v (%v) returned %v: external System.ActorOf caller #%d spawned an actor after Kill(root) had been issued; the root has terminated (guardClosedSignal closed) but that actor never received OnKilled: it is registered under a dead root and lives for ever although the system is stopped | schedule: %s",
+				describeCalls(calls), cfg, names(results), j, scheduleText(s)))
+		}
+	}
+	if raced {
+		h.aoRaceHits++
+	}
+	if rootStuck && !raced {
 		h.abortB = true // every further run that issues the kill would wait again
-		h.o.Monitor("root-not-terminated", in, "Kill(root) was issued but guardClosedSignal was not closed within 5 s on a system without user actors")
+		h.o.Monitor("root-not-terminated", in, fmt.Sprintf("Kill(root) was issued but guardClosedSignal was not closed within %v on a system without user actors (%v)", treeWait+confirmWait, cfg))
 	}
 	effective := 0
 	stopNil := false
@@ -1172,13 +1569,13 @@ func (h *H) lockstep(calls []tcall, metrics bool, choose func([]int, int) int) [
 			stopNil = stopNil || r == 0
 		}
 		if !ok {
-			h.o.Monitor("return-outside-table", in, fmt.Sprintf("calls %v: call #%d returned %s", describeCalls(calls), i, codeName(r)))
+			h.o.Monitor("return-outside-table", in, fmt.Sprintf("calls %v (%v): call #%d returned %s", describeCalls(calls), cfg, i, codeName(r)))
 		}
 	}
 	if effective > 1 {
-		h.o.Monitor("two-effective-stops", in, fmt.Sprintf("calls %v returned %v", describeCalls(calls), names(results)))
+		h.o.Monitor("two-effective-stops", in, fmt.Sprintf("calls %v (%v) returned %v", describeCalls(calls), cfg, names(results)))
 	}
-	if stopNil && verdict != 2 {
+	if stopNil && verdict != 2 && actor.XVSysHasCtx(sys) {
 		closed := false
 		select {
 		case <-actor.XVSysGuardClosed(sys):
@@ -1187,11 +1584,46 @@ func (h *H) lockstep(calls []tcall, metrics bool, choose func([]int, int) int) [
 		}
 		if !closed || !actor.XVSysCtxDone(sys) {
 			name := "stop-nil-system-running"
-			if !killIssued && !closed && actor.XVSysHasCtx(sys) {
+			if !killIssued && !closed {
 				name = "stop-skipped-kill-and-cancel" // the stop read s.Context == nil although a root is (being) created
 			}
-			h.o.Monitor(name, in, fmt.Sprintf("calls %v returned %v: a stop returned nil but guardClosedSignal closed=%v, context cancelled=%v, root context assigned=%v (the system keeps running, status=%d)",
-				describeCalls(calls), names(results), closed, actor.XVSysCtxDone(sys), actor.XVSysHasCtx(sys), actor.XVSysStatus(sys)))
+			h.o.Monitor(name, in, fmt.Sprintf("calls %v (%v) returned %v: a stop returned nil but guardClosedSignal closed=%v, context cancelled=%v, root context assigned=%v (the system keeps running, status=%d)",
+				describeCalls(calls), cfg, names(results), closed, actor.XVSysCtxDone(sys), actor.XVSysHasCtx(sys), actor.XVSysStatus(sys)))
+		}
+	}
+	effReturned := false
+	for i, c := range calls {
+		r := results[i]
+		if c.kind == kStop && (r == 0 || r == 4) || c.kind == kStart && (r == 10 || r == 14) {
+			effReturned = true
+		}
+	}
+	hasCancel := false
+	for _, c := range calls {
+		hasCancel = hasCancel || c.kind == kCancel
+	}
+	if !hasCancel && !effReturned && verdict != 2 && (actor.XVSysCtxDone(sys) || actor.XVSysStatus(sys) == 2) {
+		// nobody cancelled the context and no Stop got through (not-started / already-... only): the system must be untouched -
+		// a Stop BEFORE Start returns not-started without touching anything, the later Start gives a running system
+		h.o.Monitor("c07-stopped-without-stop-or-cancel", in, fmt.Sprintf("calls %v (%v) returned %v: no call cancelled the context and no Stop got through, but context cancelled=%v, status=%d: the system was stopped / its context cancelled by a call that reported it had done nothing | schedule: %s",
+			describeCalls(calls), cfg, names(results), actor.XVSysCtxDone(sys), actor.XVSysStatus(sys), scheduleText(s)))
+	}
+	if effReturned && verdict != 2 && actor.XVSysHasCtx(sys) {
+		// after ANY effective stop has returned (nil or the timeout arm) the context is cancelled and the guard goroutine ends
+		if !actor.XVSysCtxDone(sys) {
+			h.o.Monitor("c07-stop-returned-context-not-cancelled", in, fmt.Sprintf("calls %v (%v) returned %v: an effective stop has returned but the system context is NOT cancelled (status=%d): every later Stop answers already-stopped without cancelling, the context-guard goroutine stays blocked on <-ctx.Done() for ever | schedule: %s",
+				describeCalls(calls), cfg, names(results), actor.XVSysStatus(sys), scheduleText(s)))
+		}
+		if verdict == 1 {
+			h.o.Monitor("c07-guard-goroutine-outlives-stop", in, fmt.Sprintf("calls %v (%v) returned %v: every call has returned, an effective stop among them, but the context-guard goroutine is still parked on <-ctx.Done() (context cancelled=%v) | schedule: %s",
+				describeCalls(calls), cfg, names(results), actor.XVSysCtxDone(sys), scheduleText(s)))
+		}
+	}
+	if stopNil && verdict != 2 {
+		// whoever stopped the system (Stop, or Start's own failure path): the status is stop for good
+		if st := actor.XVSysStatus(sys); st != 2 {
+			h.o.Monitor("stop-nil-status-not-stop", in, fmt.Sprintf("calls %v (%v) returned %v: a stop returned nil but the status is %d, not stop: the one-way state machine can be started / stopped again",
+				describeCalls(calls), cfg, names(results), st))
 		}
 	}
 	// ---- cleanup: let everything that is still parked run for real and shut the system down ----
@@ -1233,12 +1665,12 @@ func scheduleText(s *vsched.Sched) string {
 // lock-order machine of System/LockOrder.v (kind 3): the model answers, per thread, whether the sequence respects
 // the lock hierarchy statusLock < actorOfLock (well bracketed, never acquiring a lock while holding a higher or
 // equal one) and whether it is a prefix of the program the model assigns to that kind of thread.
-func (h *H) lockOrderCase(calls []tcall, n int, guardTid int, s *vsched.Sched) {
+func (h *H) lockOrderCase(calls []tcall, n int, next int, guardTid int, s *vsched.Sched) {
 	lockID := func(name string) (uint64, bool) {
 		switch name {
-		case "s.statusLock":
+		case "status":
 			return 0, true
-		case "s.actorOfLock":
+		case "actorOf":
 			return 1, true
 		}
 		return 0, false
@@ -1272,6 +1704,9 @@ func (h *H) lockOrderCase(calls []tcall, n int, guardTid int, s *vsched.Sched) {
 	}
 	if guardTid >= 0 {
 		add(2, guardTid)
+	}
+	for j := 0; j < next; j++ {
+		add(4, n+j) // external System.ActorOf caller
 	}
 	in := lib.L(lib.N(3), lib.LS(threads))
 	key := lib.Show(in)
@@ -1316,6 +1751,14 @@ func (h *H) tierB(r *lib.Rand, thorough bool) {
 		bound, perCfg = 3, 8000
 	}
 	total := 0
+	dfs := func(c []tcall, cfg lsCfg, max int) int {
+		return vsched.Explore(bound, max, func(choose func([]int, int) int) []vsched.Choice {
+			if h.abortB {
+				return nil
+			}
+			return h.lockstep(c, cfg, choose)
+		})
+	}
 	// first the systems whose start-up chain takes actorOfLock under statusLock (metrics enabled): Start against
 	// Stop / cancel / a second Start, every schedule up to the preemption bound
 	withMetrics := [][]tcall{{st, sp}, {sp, st}, {st, sp, sp}, {st, st, sp}, {st, ca}, {st, spd, ca}}
@@ -1325,24 +1768,57 @@ func (h *H) tierB(r *lib.Rand, thorough bool) {
 	}
 	mruns := 0
 	for _, c := range withMetrics {
-		c := c
-		mruns += vsched.Explore(bound, perM, func(choose func([]int, int) int) []vsched.Choice {
-			if h.abortB {
-				return nil
-			}
-			return h.lockstep(c, true, choose)
-		})
+		mruns += dfs(c, lsCfg{metrics: true}, perM)
 	}
 	h.o.Info["ls_dfs_metrics_configs"] = len(withMetrics)
 	h.o.Info["ls_dfs_metrics_runs"] = mruns
+	// external System.ActorOf callers (they go once a Start has returned nil) against Stop / cancel / the guard goroutine:
+	// actorOfLock is contended between the chain (under statusLock), Leave and these callers
+	withExt := []struct {
+		c   []tcall
+		cfg lsCfg
+	}{
+		{[]tcall{st, sp}, lsCfg{ext: 1}}, {[]tcall{st}, lsCfg{ext: 2}}, {[]tcall{st, sp, ca}, lsCfg{ext: 1, metrics: true}},
+		{[]tcall{st, st, spd}, lsCfg{ext: 2, metrics: true}},
+	}
+	xruns := 0
+	for _, x := range withExt {
+		xruns += dfs(x.c, x.cfg, perM)
+	}
+	h.o.Info["ls_dfs_ext_runs"] = xruns
+	// root creation fails (invalid advertise address): Start's failure path - Unlock, s.Stop(StopTimeout) finding no root,
+	// start-failed(nil) - against Stop / cancel / a second Start
+	rootFail := [][]tcall{{st}, {st, sp}, {sp, st}, {st, st}, {st, ca}, {st, st, spd, ca}}
+	perF := 60
+	if thorough {
+		perF = 1500
+	}
+	fruns := 0
+	for _, c := range rootFail {
+		fruns += dfs(c, lsCfg{rootFail: true}, perF)
+	}
+	h.o.Info["ls_dfs_rootfail_runs"] = fruns
+	// remoting / single-node cluster on loopback: the chain has 1 / 3 (4 with metrics) System.ActorOf calls under
+	// statusLock; the effective stop of a clustered system goes through Leave() (System.ActorOf of the helper actor, then
+	// the wait for ClusterLeaveCompletedEvent, which the real cluster node publishes)
+	netCfgs := []struct {
+		c   []tcall
+		cfg lsCfg
+	}{
+		{[]tcall{st, sp}, lsCfg{cluster: true}}, {[]tcall{st, ca}, lsCfg{cluster: true, metrics: true}}, {[]tcall{st, sp, spd}, lsCfg{cluster: true, ext: 1}},
+		{[]tcall{st, sp}, lsCfg{remoting: true}}, {[]tcall{st, ca, sp}, lsCfg{remoting: true, metrics: true}},
+	}
+	perN := 12
+	if thorough {
+		perN = 300
+	}
+	nruns := 0
+	for _, x := range netCfgs {
+		nruns += dfs(x.c, x.cfg, perN)
+	}
+	h.o.Info["ls_dfs_net_runs"] = nruns
 	for _, c := range fixed {
-		c := c
-		total += vsched.Explore(bound, perCfg, func(choose func([]int, int) int) []vsched.Choice {
-			if h.abortB {
-				return nil
-			}
-			return h.lockstep(c, false, choose)
-		})
+		total += dfs(c, lsCfg{}, perCfg)
 	}
 	h.o.Info["ls_dfs_configs"] = len(fixed)
 	h.o.Info["ls_dfs_preemption_bound"] = bound
@@ -1369,6 +1845,7 @@ func (h *H) tierB(r *lib.Rand, thorough bool) {
 		}
 		if len(calls) == 0 {
 			calls = []tcall{st, sp}
+			ns = 1
 		}
 		for k := len(calls) - 1; k > 0; k-- { // shuffle
 			j := r.Intn(k + 1)
@@ -1381,7 +1858,16 @@ func (h *H) tierB(r *lib.Rand, thorough bool) {
 		} else {
 			ch = vsched.StickyChooser(rr.Intn, 2+r.Intn(5))
 		}
-		h.lockstep(calls, i%5 == 4, ch)
+		cfg := lsCfg{metrics: i%5 == 4}
+		switch {
+		case i%7 == 3:
+			cfg.rootFail = true
+		case i%6 == 1 && ns > 0:
+			cfg.ext = 1 + i%2
+		case i%50 == 10 && ns > 0:
+			cfg.cluster = true
+		}
+		h.lockstep(calls, cfg, ch)
 	}
 	h.o.Info["ls_random_runs"] = n
 }
@@ -1389,7 +1875,7 @@ func (h *H) tierB(r *lib.Rand, thorough bool) {
 func main() {
 	f := lib.ParseFlags()
 	o := lib.NewOut(f.Out)
-	h := &H{o: o}
+	h := &H{o: o, report: f.Report}
 	vsched.TrackRealLocks.Store(true) // the real-time watchdog names the lock sites of a lock-order deadlock
 	r := lib.NewRand(f.Seed)
 	thorough := f.Tier == "thorough"
@@ -1400,10 +1886,19 @@ func main() {
 	h.tierB(rb, thorough)
 	o.Info["ls_wall_s"] = time.Since(t1).Seconds()
 	t0 := time.Now()
-	h.tierA(ra, thorough)
+	// seeds >= 1000 are the ones bin/check uses for its targeted search after a correspondence break (seed+1000+i): the
+	// real-time tier is seed-independent except for which quarter of the longest sequences it samples, so re-running all of
+	// it three more times only costs time; the search runs get a reduced real-time tier (the lock-step tier is complete)
+	reduced := f.Seed >= 1000 && !thorough
+	h.tierA(ra, thorough, reduced)
+	o.Info["rt_reduced"] = reduced
 	o.Info["rt_wall_s"] = time.Since(t0).Seconds()
 	o.Close(f.Report)
 	if len(o.Monitors) > 0 {
 		os.Exit(3)
+	}
+	if h.watchdog != "" {
+		fmt.Fprintln(os.Stderr, h.watchdog)
+		os.Exit(5)
 	}
 }
